@@ -20,10 +20,6 @@ theorem fm_callback_unchecked :
     r.2 = .ok () ∧ r.1.text 0 = some 1 := by
   exact ⟨rfl, rfl⟩
 
-/-- C13-K1, second half: even a value that is no function (a `*int`) is accepted on this route -/
-theorem fm_nonfunction_accepted :
-    (fmApply G.init { id := 0, sig := ⟨[rc, i], [i], false, i⟩ } (.val ⟨.ptr, 8, 34, false, 0⟩) 1).2 = .ok () := rfl
-
 /-- C04-K1 seen from C13: a first `When()` without conditions on `func(int) int` is accepted -/
 theorem first_when_without_args_accepted :
     (seqStep { id := 0, sig := ⟨[i], [i], false, i⟩ } false 1 ⟨G.init, none, .none⟩ (.when_ none false)).2 = .ok () := rfl
